@@ -391,6 +391,9 @@ class Node:
                 f"rejecting a new connection attempt from {conn.node_name}, "
                 f"because the node is shutting down")
             peer_socket.close()
+            # the connection never becomes known to the node, nobody else
+            # would stop its worker threads
+            conn.close(signal_node=False)
             return None
 
         with self._busy_lock:
@@ -400,6 +403,7 @@ class Node:
                     f"rejecting a new connection attempt from "
                     f"{conn.node_name}, as the peer is already connected")
                 peer_socket.close()
+                conn.close(signal_node=False)
                 return None
 
             conn.ident = self._generate_connection_id()
@@ -548,6 +552,8 @@ class Node:
                                      peer.port))
             except socket.error as e:
                 if e.args[0] != errno.EINPROGRESS:
+                    peer_socket.close()
+                    conn.close(signal_node=False)
                     self.remove_peer_connection(
                         conn, DISCONNECT_REASON_SOCKET_FAIL)
                     return
@@ -575,6 +581,8 @@ class Node:
                 peer_socket.connectx(connect_addr)
             except socket.error as e:
                 if e.args[0] != errno.EINPROGRESS:
+                    peer_socket.close()
+                    conn.close(signal_node=False)
                     self.remove_peer_connection(
                         conn, DISCONNECT_REASON_SOCKET_FAIL)
                     return
